@@ -37,6 +37,36 @@ for _n in ("2", "3", "4"):
     for _f in ("project", "orthogonal", "reflect", "closestVertex"):
         THEOREM_FUNCS["VecAlgo%s_%s" % (_n, _f)] = ["VecAlgo%s.%s" % (_n, _f)] + (["VecAlgo%s.project" % _n] if _f != "closestVertex" else [])
 
+# theorems added by the audit follow-up: exported case analyses (no unit-direction hypotheses), "no division by zero" from the guard,
+# projective / singular `plane * M`, compositions with the independent vocabulary, out-of-domain witnesses, pinned full statements
+# (`*_pinned`: the headline statements written out a second time, so that a weakened theorem no longer proves its pinned copy) and
+# joint instantiations over the reals (`*_real_instance`)
+THEOREM_FUNCS.update({
+    "closestPointToLine_cases": ["Line3.closestPointToLine"], "cpl_guard_den_ne_zero": ["Line3.closestPointToLine"],
+    "Line3_closestPointToLine_no_div_by_zero": ["Line3.closestPointToLine"],
+    "Plane3_mulM44_projective": ["Plane3.mulM44"], "Plane3_mulM44_projective_contains": ["Plane3.mulM44"],
+    "Plane3_mulM44_projective_iff": ["Plane3.mulM44"], "Plane3_mulM44_singular": ["Plane3.mulM44"], "Plane3_mulM44_collapse": ["Plane3.mulM44"],
+    "affine_MulM44Defined": ["Plane3.mulM44"],
+    "Sphere3_intersectT_cases": ["Sphere3.intersectT"], "Sphere3_intersectT_zero_dir": ["Sphere3.intersectT"],
+    "Sphere3_intersectT_nonunit_witness": ["Sphere3.intersectT"], "Sphere3_intersect_geo": ["Sphere3.intersect", "Sphere3.intersectT"],
+    "LineAlgo_closestVertex_geo": ["LineAlgo.closestVertex", "Line3.closestPointToPoint"], "LineAlgo_rotatePoint_geo": ["LineAlgo.rotatePoint"],
+    "Plane3_reflectVector_keeps_normal_component_witness": ["Plane3.reflectVector"], "Plane3_reflectVector_negates_normal_component_iff": ["Plane3.reflectVector"],
+    "VecAlgo3_reflect_negative_of_documented_witness": ["VecAlgo3.reflect"],
+    "Sphere3_intersectT_real_instance": ["Sphere3.intersectT"], "LineAlgo_intersect_real_instance": ["LineAlgo.intersect"],
+    "Plane3_mulM44_real_instance": ["Plane3.mulM44"], "Plane3_mulM44_projective_real_instance": ["Plane3.mulM44"],
+})
+PINNED = {"Line3_set": ["Line3.set"], "Line3_closestPointToPoint": ["Line3.closestPointToPoint"], "Line3_distanceToPoint": ["Line3.distanceToPoint"],
+          "Line3_closestPointToLine": ["Line3.closestPointToLine"], "LineAlgo_closestPoints": ["LineAlgo.closestPoints"],
+          "Line3_distanceToLine": ["Line3.distanceToLine"], "Plane3_setPoints": ["Plane3.setPoints"], "Plane3_setPointNormal": ["Plane3.setPointNormal"],
+          "Plane3_setNormalDistance": ["Plane3.setNormalDistance"], "Plane3_reflectPoint": ["Plane3.reflectPoint"],
+          "Plane3_reflectVector": ["Plane3.reflectVector"], "Plane3_intersectT": ["Plane3.intersectT"], "Plane3_mulM44": ["Plane3.mulM44"],
+          "Plane3_mulM44_projective": ["Plane3.mulM44"], "Sphere3_intersectT": ["Sphere3.intersectT"], "Sphere3_circumscribe": ["Sphere3.circumscribe"],
+          "LineAlgo_intersect_sound": ["LineAlgo.intersect"], "LineAlgo_intersect_complete": ["LineAlgo.intersect"]}
+for _n, _f in PINNED.items():
+    THEOREM_FUNCS[_n + "_pinned"] = _f
+# every theorem of Props/C15.lean is REQUIRED: a theorem deleted during a proof repair is reported as `missing:<name>`
+REQUIRED = sorted(THEOREM_FUNCS) + ["V3_length_LenSpec", "V2_length_LenSpec", "V4_length_LenSpec", "sphere_quadratic", "numA_of_bary"]
+
 # the theorem that carries a function's failures when they are reported by the residue harness alone
 FUNC_THEOREM = {"Line3.distanceToLine": "Line3_distanceToLine"}
 
@@ -84,6 +114,12 @@ def run_residue(chk, binary, n):
 
 
 PARALLEL_KEY = "closestPoints:exactly-parallel-reported-true"
+# lattice lines that are parallel, whose two normalised directions differ in the last place: distanceTo(line) takes the skew branch and
+# divides an eps-sized triple product by the eps-sized |d1 x d2| (sibling of the finding above; judged against the lattice answer)
+DIFFER_KEY = "distanceToLine:parallel-in-lattice-directions-differ-by-rounding"
+# the open finding PARALLEL_KEY must not hide a regression: share of bitwise-parallel pairs reported `true` (clean tree, seeds 1-3,
+# n = 1500 / 6000: 0.38 .. 0.55)
+PARALLEL_TRUE_SHARE_MAX = 0.70
 
 
 def parallel_repro(binary, idx_deps):
@@ -102,6 +138,73 @@ def parallel_repro(binary, idx_deps):
             cmd += ["--idx", d]
         rc, o = lib.sh(cmd, timeout=120)
         out["real_code_at_double"] = o.strip().split("\n")[-1] if o.strip() else None
+    return out
+
+
+REFLECTVECTOR_KEY = "reflectVector:normal-component-kept-not-negated"
+REFLECT_KEY = "VecAlgo.reflect:returns-negative-of-documented-reflection"
+
+
+def property_text_obligations(chk, binary, idx_deps):
+    """The property's WORDING tested literally on the real code, for the two places where the code follows the opposite sign
+    convention (recorded deviations; the theorems Plane3_reflectVector / VecAlgo?_reflect state what the code does, the witnesses
+    Plane3_reflectVector_keeps_normal_component_witness / VecAlgo3_reflect_negative_of_documented_witness prove the negation):
+    "reflectPoint/reflectVector are involutions that negate signed distance", and ImathVecAlgo.h's own definition of reflect(s,t)
+    as the direction of the ray s after reflection off a plane with normal t."""
+    def real(fn, args):
+        cmd = [binary, "real", fn] + args
+        for d in idx_deps:
+            cmd += ["--idx", d]
+        rc, o = lib.sh(cmd, timeout=120)
+        m = re.search(r"REAL \S+ exc=- vals=([^=]*) ints=", o)
+        return [float(x) for x in m.group(1).split()] if m else None
+    got = real("Plane3.reflectVector", ["0", "0", "1", "0", "1", "2", "3"])
+    name = "propertytext:reflectVector negates the signed distance n.v: n.reflectVector(v) = -(n.v) on the real code (plane normal (0,0,1), v = (1,2,3))"
+    ok = got is not None and len(got) == 3 and got[2] == -3.0
+    chk.oblige(name, "correspondence", ok, None if ok else {"real_code": got, "mirror_image_required_by_the_text": [1.0, 2.0, -3.0]})
+    if not ok:
+        chk.fail(name, REFLECTVECTOR_KEY,
+                 "Plane3::reflectVector keeps the normal component instead of negating it: Plane3d(V3d(0,0,1),0).reflectVector(V3d(1,2,3)) = %s, "
+                 "n.v' = +3 = n.v; the mirror image in the plane (normal component negated, as the property text says) is (1,2,-3). The code is "
+                 "v' = 2(n.v)n - v, the negative of the mirror image" % (got,),
+                 {"real_code_at_double": got, "input": {"plane": [0, 0, 1, 0], "v": [1, 2, 3]}, "required_by_property_text": [1, 2, -3],
+                  "theorems": ["Plane3_reflectVector (what the code does)", "Plane3_reflectVector_keeps_normal_component_witness (negation of the text's claim)",
+                               "Plane3_reflectVector_negates_normal_component_iff"]}, True)
+    got3 = real("VecAlgo3.reflect", ["1", "2", "3", "0", "0", "1"])
+    got2 = real("VecAlgo2.reflect", ["1", "2", "0", "1"])
+    got4 = real("VecAlgo4.reflect", ["1", "2", "3", "4", "0", "0", "0", "1"])
+    name2 = "propertytext:reflect(s,t) = the ray s after reflection off a plane with normal t (ImathVecAlgo.h): s - 2 proj_t(s), on the real code (s = (1,2,3), t = (0,0,1))"
+    ok2 = got3 == [1.0, 2.0, -3.0] and got2 == [1.0, -2.0] and got4 == [1.0, 2.0, 3.0, -4.0]
+    chk.oblige(name2, "correspondence", ok2, None if ok2 else {"real_code_V3": got3, "documented": [1.0, 2.0, -3.0]})
+    if not ok2:
+        chk.fail(name2, REFLECT_KEY,
+                 "reflect(s,t) returns the negative of the reflection its header comment defines: reflect(V3d(1,2,3), V3d(0,0,1)) = %s; the ray s after "
+                 "reflection off the plane with normal t is s - 2 proj_t(s) = (1,2,-3). The code is 2 proj_t(s) - s (same for Vec2 and Vec4)" % (got3,),
+                 {"real_code_at_double": {"V3 s=(1,2,3) t=(0,0,1)": got3, "V2 s=(1,2) t=(0,1)": got2, "V4 s=(1,2,3,4) t=(0,0,0,1)": got4},
+                  "documented_by_the_header_comment": {"V3": [1, 2, -3], "V2": [1, -2], "V4": [1, 2, 3, -4]},
+                  "theorems": ["VecAlgo2/3/4_reflect (what the code does)", "VecAlgo3_reflect_negative_of_documented_witness (negation)"]}, True)
+
+
+def differ_repro(binary, idx_deps):
+    """fixed concrete instance: Line3d((4,2,-1),(0,-1,2)) and Line3d((-1,4,0),(-13,-5,9)) are parallel in the lattice (directions
+    (-4,-3,3) and 3*(-4,-3,3)); the two normalised directions differ in the last place of a component"""
+    out = {"concrete_input": "Line3d(V3d(4,2,-1),V3d(0,-1,2)).distanceTo(Line3d(V3d(-1,4,0),V3d(-13,-5,9))): the lattice lines are parallel (second direction = 3 x first), "
+                             "distance 4.63680925; the code returns 2.12132034",
+           "reading": "normalize() of (-4,-3,3) and of (-12,-9,9) give directions that differ by one ulp in a component, so |d1 x d2| is ~1e-16 instead of 0, the "
+                      "`l == 0` test for parallel lines fails and (n . w) / l divides rounding noise by rounding noise: any value in [0, |w|] can come out. The "
+                      "represented lines are not exactly parallel, so this is ill-conditioning rather than a wrong formula; a caller who builds parallel lines from "
+                      "points gets a wrong distance in ~30 % (double) / ~70 % (float) of the pairs whose directions do not round identically"}
+    if binary:
+        import math
+        def unit(v):
+            l = math.sqrt(sum(x * x for x in v))
+            return [x / l for x in v]
+        d1, d2 = unit([-4.0, -3.0, 3.0]), unit([-12.0, -9.0, 9.0])
+        cmd = [binary, "real", "Line3.distanceToLine", "4", "2", "-1"] + [repr(x) for x in d1] + ["-1", "4", "0"] + [repr(x) for x in d2]
+        for d in idx_deps:
+            cmd += ["--idx", d]
+        rc, o = lib.sh(cmd, timeout=120)
+        out["real_code_at_double_with_python_normalised_directions"] = o.strip().split("\n")[-1] if o.strip() else None
     return out
 
 
@@ -234,6 +337,310 @@ def _f(x):
     return "%d/%d" % (x.numerator, x.denominator)
 
 
+# ---------------------------------------------------------------------------
+# C++-side TV on STRUCTURED inputs with a leaf-coverage obligation (audit W4, second half): troute.tv draws unstructured inputs,
+# so whether e.g. the `true` leaves of the 50-path triangle tree or the guard-fired leaves of closestPointTo(line) were ever
+# compared bitwise with the real code was unknown.  `sym_c15 tvin` validates the given inputs at double and float and
+# reports the leaves reached.
+
+# leaves that inputs can reach (raw inputs: directions need not be unit vectors).  LineAlgo.intersect: 50 paths, of which 34 take
+# `length(edge) = 0` TRUE after `length(normal) = 0` FALSE (an edge of zero length makes the normal zero): `sym_c15 leafinfo`
+# recomputes that number from the current tree.  rotatePoint: `radius = 0` with `|x × dir| ≠ 0` is unreachable (x is then 0).
+TVIN_EXPECT = {"Line3.set": 2, "Line3.closestPointToLine": 10, "Line3.distanceToLine": 3, "LineAlgo.closestPoints": 4, "LineAlgo.intersect": 16,
+               "LineAlgo.rotatePoint": 3, "Plane3.setPoints": 2, "Plane3.intersectT": 2, "Plane3.intersect": 2, "Sphere3.intersectT": 4,
+               "Sphere3.intersect": 4, "LineAlgo.closestVertex": 4}
+
+
+def _tvin_inputs(rng, n):
+    L = []
+    iv = lambda r=4: [rng.randint(-r, r) for _ in range(3)]
+    add = lambda fn, vals: L.append(fn + " " + " ".join(v if isinstance(v, str) else repr(float(v)) for v in vals))
+    def unit(v):
+        l = sum(x * x for x in v) ** 0.5
+        return [x / l for x in v] if l else v
+    for k in range(n):
+        # ---- triangles: lattice triangle, line from a lattice point towards (or past) a point with quarter-integer barycentrics
+        v0, v1, v2, a0 = iv(), iv(), iv(), iv(6)
+        if k % 9 == 0: v2 = [v0[i] + 2 * (v1[i] - v0[i]) for i in range(3)]                     # zero-area triangle
+        i, j = rng.randint(-2, 6), rng.randint(-2, 6)
+        w = (i, j, 4 - i - j)
+        tgt = [(w[0] * v0[c] + w[1] * v1[c] + w[2] * v2[c]) / 4.0 for c in range(3)]
+        d = [tgt[c] - a0[c] for c in range(3)]
+        if k % 7 == 0: d = [v1[c] - v0[c] for c in range(3)]                                     # parallel to the plane: |d| < max*|nd| fails
+        if any(d):
+            for dd in (d, unit(d), [x / 64.0 for x in d], [-x for x in d]):
+                add("LineAlgo.intersect", a0 + list(dd) + v0 + v1 + v2)
+        # ---- pairs of lines: lattice directions (|den| >= 1), unit directions, exactly parallel, nearly parallel
+        p1, p2, e1, e2 = iv(), iv(), iv(), iv()
+        if not any(e1): e1 = [1, 0, 0]
+        if not any(e2): e2 = [0, 1, 0]
+        if k % 4 == 1: e2 = [x * rng.choice([1, -1, 2]) for x in e1]
+        for (d1, d2) in ((e1, e2), (unit(e1), unit(e2)), (unit(e1), [x / 3.0 for x in unit(e2)])):
+            for fn in ("Line3.closestPointToLine", "LineAlgo.closestPoints", "Line3.distanceToLine"):
+                add(fn, p1 + list(d1) + p2 + list(d2))
+        add("LineAlgo.closestVertex", iv() + iv() + iv() + p1 + unit(e1))
+        # ---- Line3.set / Plane3.setPoints / plane-line / rotatePoint / spheres
+        add("Line3.set", p1 + (p1 if k % 3 == 0 else p2))
+        q1, q2, q3 = iv(), iv(), iv()
+        if k % 3 == 0: q3 = [q1[c] + 3 * (q2[c] - q1[c]) for c in range(3)]
+        add("Plane3.setPoints", q1 + q2 + q3)
+        nrm = iv(2)
+        dirp = e1 if k % 2 else [nrm[1], -nrm[0], 0]                                             # second form: normal . dir = 0 exactly
+        for fn in ("Plane3.intersectT", "Plane3.intersect"):
+            add(fn, nrm + [rng.randint(-3, 3)] + p1 + dirp)
+        pr = p1 if k % 3 == 0 else ([p1[c] + 2 * e1[c] for c in range(3)] if k % 3 == 1 else iv())    # on the line (pos) / along a non-unit dir / generic
+        add("LineAlgo.rotatePoint", pr + p1 + (e1 if k % 2 else unit(e1)) + [rng.randint(-8, 8) * 0.39269908169872414])
+        c, R, a = iv(), rng.randint(0, 5), iv(7)
+        for fn in ("Sphere3.intersectT", "Sphere3.intersect"):
+            add(fn, c + [R] + a + unit([c[i] - a[i] + rng.randint(-2, 2) for i in range(3)] if k % 2 else e1))
+    # ---- overflow guards with a non-zero denominator: |num| >= |den| * max (double: 1 -+ 2^-52, float: 1 -+ 2^-23; direction 2 is NOT a unit vector)
+    for (c, big) in (("0x1.fffffffffffffp-1", "1e300"), ("0x1.0000000000001p+0", "1e300"), ("0x1.fffffep-1", "1e35"), ("0x1.000002p+0", "1e35")):
+        for sg in ("", "-"):
+            for fn in ("Line3.closestPointToLine", "LineAlgo.closestPoints"):
+                add(fn, ["0", sg + big, "0", "1", "0", "0", "0", "0", "0", c, "1", "0"])          # num = -+ c*big, den = c^2 - 1
+                add(fn, ["0", "0", "0", "1", "0", "0", "0", sg + big, "0", c, "1", "0"])
+                add(fn, [sg + big, "0", "0", c, "1", "0", "0", "0", "0", "1", "0", "0"])
+    # closestPoints: |n1| < max*|d| but |n2| >= max*|d| (n1 = -s*wy, n2 = d*wx - c*s*wy with dir1 = (c,1,0), dir2 = (1,0,0), w = (wx,wy,0))
+    for (c, wx, wy) in (("0x1.fffffffffffffp-1", "-1e307", "3.9e292"), ("0x1.fffffep-1", "-4e37", "3.75e31")):
+        add("LineAlgo.closestPoints", [wx, wy, "0", c, "1", "0", "0", "0", "0", "1", "0", "0"])
+    return L
+
+
+def structured_tv(chk, binary, idx_deps):
+    import random
+    rng = random.Random(chk.seed * 1000003 + 15)
+    lines = _tvin_inputs(rng, 400 if chk.thorough else 120)
+    cmd = [binary, "tvin"]
+    for d in idx_deps:
+        cmd += ["--idx", d]
+    rc, out = lib.sh(cmd, timeout=900, stdin="\n".join(lines) + "\n")
+    m = re.search(r"TVIN evaluations=(\d+) failures=(\d+)", out)
+    sums = dict((mm.group(1), {"inputs": int(mm.group(2)), "hit": int(mm.group(3)), "paths": int(mm.group(4)), "leaves": [int(x) for x in mm.group(5).split(",") if x]})
+                for mm in re.finditer(r"TVINSUM (\S+) inputs=(\d+) hit=(\d+) paths=(\d+) leaves=(\S*)", out))
+    fails = [l for l in out.split("\n") if l.startswith("TVFAIL") or l.startswith("TVINERR")]
+    ok = m is not None and int(m.group(2)) == 0 and not fails
+    chk.oblige("tv:c15:structured: extracted trees = real instantiations, bitwise, on %d structured inputs (lattice triangles with lines aimed at "
+               "edges/vertices/interior, degenerate and parallel configurations, fired overflow guards)" % len(lines), "translation-validation", ok,
+               None if ok else (fails[:5] or out[-500:]))
+    if m:
+        chk.count(int(m.group(1)), int(m.group(1)))
+    for l in fails[:10]:
+        mm = re.match(r"TVFAIL (\S+) (\S+) :: (.*?) :: in=(.*)", l)
+        if mm:
+            chk.fail("tv:c15:structured", "tv:%s:%s" % (mm.group(2), mm.group(1)),
+                     "extracted model of %s disagrees with the real instantiation at %s on a structured input" % (mm.group(2), mm.group(1)),
+                     {"function": mm.group(2), "element_type": mm.group(1), "detail": mm.group(3), "input": mm.group(4).split()}, True)
+    if not ok and not [l for l in fails if l.startswith("TVFAIL")]:
+        chk.fail("tv:c15:structured", "tv:c15:structured", "structured translator validation did not run to completion", {"output": out[-1500:]}, False)
+    # leaf coverage: recompute the number of unreachable leaves of the triangle tree from the CURRENT tree
+    rc2, out2 = lib.sh([binary, "leafinfo"] + [x for d in idx_deps for x in ("--idx", d)], timeout=300)
+    info = dict((mm.group(1), {"paths": int(mm.group(2)), "true_leaves": int(mm.group(3)), "unreachable_rule": int(mm.group(4)), "calls": int(mm.group(5))})
+                for mm in re.finditer(r"LEAFINFO (\S+) paths=(\d+) true_leaves=(\d+) call_eq_zero_true_below_root=(\d+) calls=(\d+)", out2))
+    expect = dict(TVIN_EXPECT)
+    if "LineAlgo.intersect" in info:
+        expect["LineAlgo.intersect"] = info["LineAlgo.intersect"]["paths"] - info["LineAlgo.intersect"]["unreachable_rule"]
+    for fn in info:                      # a tree that changed shape: every path of a small tree is expected unless listed above with fewer
+        if fn in expect and fn not in ("LineAlgo.intersect", "LineAlgo.rotatePoint"):
+            expect[fn] = info[fn]["paths"]
+    short = dict((fn, {"hit": sums.get(fn, {}).get("hit", 0), "expected": e, "paths": info.get(fn, {}).get("paths")}) for fn, e in expect.items()
+                 if sums.get(fn, {}).get("hit", 0) < e)
+    okc = bool(sums) and not short
+    chk.oblige("tv:c15:leaves: every reachable leaf of the branching trees is compared bitwise with the real code (%s)"
+               % ", ".join("%s %d/%d" % (fn.split(".")[-1] if fn.count(".") == 1 and fn.split(".")[0] not in ("Plane3", "Sphere3") else fn, sums.get(fn, {}).get("hit", 0), info.get(fn, {}).get("paths", 0))
+                           for fn in sorted(expect)), "translation-validation", okc, None if okc else short)
+    if not okc:
+        chk.fail("tv:c15:leaves", "tv:c15:leaf-coverage", "the structured TV inputs do not reach every reachable leaf of the extracted trees "
+                 "(the tree changed shape: extend _tvin_inputs in tools/props/c15.py)", {"short": short, "reached": sums}, False)
+    chk.extra.setdefault("tv", {})["c15_structured"] = {"inputs": len(lines), "leaves_reached": dict((k, [v["hit"], v["paths"]]) for k, v in sums.items()),
+                                                       "triangle_true_leaves_in_tree": info.get("LineAlgo.intersect", {}).get("true_leaves")}
+    return info
+
+
+# ---------------------------------------------------------------------------
+# Lean-side validation of the EMITTED TEXT of the entries that call an opaque function (audit W4, first half).  troute.lean_tv
+# skips them (23 of 38 in c15; Plane3.mulM44 in c15b).  Here the call is COMPOSED: `ratstep` of the entry's binary reports the exact
+# arguments of each needed call, the binary that owns the CALLEE's tree evaluates it (sym_leaf `rateval` for V*.length, sym_c15
+# `ratstep` for Plane3.setPoints, recursively), and the entry's tree is re-evaluated with those values.  The emitted Lean text,
+# which calls `V3.length tmin tmax sqrt ⟨..⟩` / `Plane3.setPoints tmin tmax sqrt ..` IN LEAN, must print the same fractions.
+
+CALLEE_OWNER = {"V2.length": "sym_leaf", "V3.length": "sym_leaf", "V4.length": "sym_leaf", "Plane3.setPoints": "sym_c15"}
+
+
+def _rat_cases(rng, d, k, n):
+    """input fractions for entry d: random small fractions, sparse, all-zero (the length() = 0 paths), lattice configurations"""
+    nin = 0
+    for p in [x for x in (d.get("params") or "").split(",") if x]:
+        sh = p.partition(":")[2]
+        nin += 1 if sh == "-" else troute.ARITY[sh].count("%s")
+    out = []
+    for t in range(n):
+        vals = []
+        for j in range(nin):
+            a = rng.randint(-4, 4)
+            den = rng.randint(1, 3) if t % 3 == 2 else 1
+            if t % 3 == 1 and rng.random() < 0.4: a = 0
+            if t == n - 1: a = 0
+            vals.append("%d/%d" % (Fr(a, den).numerator, Fr(a, den).denominator))
+        if d["name"] == "Plane3.mulM44" and t % 2 == 0:
+            # a genuinely projective matrix with a well-defined image: last column (a,b,c,1) small
+            for (slot, v) in ((7, Fr(rng.randint(-1, 1), 4)), (11, Fr(rng.randint(-1, 1), 4)), (15, Fr(rng.randint(-1, 1), 8)), (19, Fr(1))):
+                vals[slot] = "%d/%d" % (v.numerator, v.denominator)
+        if d["name"] == "Plane3.mulM44" and t < 4:
+            # one normal per axis choice of the code (largest |e_i x n|): the four paths of the tree
+            for slot, v in enumerate(((3, 2, 1), (1, 0, 0), (2, 3, 1), (0, 0, 1))[t]):
+                vals[slot] = "%d/1" % v
+        out.append(vals)
+    if d["name"] == "LineAlgo.intersect":
+        for (x, y, up) in ((1, 1, 1), (0, 0, 1), (3, 0, -1), (Fr(3, 2), 2, 1), (5, 5, 1), (-1, 1, -1), (1, -1, 1)):
+            out.append([_f(v) for v in (x, y, up, 0, 0, -up, 0, 0, 0, 3, 0, 0, 0, 4, 0)])
+    return out
+
+
+def composed_lean_tv(chk, bins, index, index2, leaf_idx, c15_idx):
+    import random
+    rng = random.Random(chk.seed * 7919 + 151)
+    idx_of = {"sym_leaf": [], "sym_c15": ["--idx", leaf_idx], "sym_c15b": ["--idx", leaf_idx, "--idx", c15_idx]}
+    meta = {}
+    for d in index:
+        meta[d["name"]] = dict(d, bin="sym_c15")
+    for d in index2:
+        meta[d["name"]] = dict(d, bin="sym_c15b")
+    # entries with opaque calls
+    with_calls = []
+    for b in ("sym_c15", "sym_c15b"):
+        rc, out = lib.sh([bins[b], "leafinfo"] + idx_of[b], timeout=300)
+        with_calls += [m.group(1) for m in re.finditer(r"LEAFINFO (\S+) paths=\d+ true_leaves=\d+ call_eq_zero_true_below_root=\d+ calls=(\d+)", out) if int(m.group(2)) > 0]
+    n_per = 8 if chk.thorough else 4
+    nodes, order = {}, []
+    def new_node(b, fn, ins, parent=None):
+        nid = "n%d" % len(nodes)
+        nodes[nid] = {"bin": b, "fn": fn, "ins": ins, "calls": {}, "asked": set(), "parent": parent, "done": None, "err": None}
+        return nid
+    for fn in with_calls:
+        for ins in _rat_cases(rng, meta[fn], 0, n_per):
+            order.append(new_node(meta[fn]["bin"], fn, ins))
+    for rnd in range(12):
+        progress = False
+        for b in ("sym_c15b", "sym_c15", "sym_leaf"):
+            pend = [nid for nid, nd in nodes.items() if nd["bin"] == b and nd["done"] is None and nd["err"] is None
+                    and all(k in nd["calls"] for k in nd["asked"])]
+            if not pend:
+                continue
+            if b == "sym_leaf":
+                rc, out = lib.sh([bins[b], "rateval"], timeout=600, stdin="".join("%s %s\n" % (nodes[n]["fn"], " ".join(nodes[n]["ins"])) for n in pend))
+                got = dict((int(m.group(1)), m.group(2)) for m in re.finditer(r"RATVAL (\d+) (\S+)", out))
+                for i, nid in enumerate(pend):
+                    v = got.get(i, "error")
+                    if re.match(r"^(-?\d+/\d+,)+$", v):
+                        nodes[nid]["done"] = (None, [x for x in v.split(",") if x], None)
+                    else:
+                        nodes[nid]["err"] = v
+                    progress = True
+            else:
+                feed = ""
+                for nid in pend:
+                    nd = nodes[nid]
+                    feed += "%s %s IN %s" % (nid, nd["fn"], " ".join(nd["ins"]))
+                    if nd["calls"]:
+                        feed += " CALLS " + " ".join("%d=%s" % (k, ",".join(v)) for k, v in sorted(nd["calls"].items()))
+                    feed += "\n"
+                rc, out = lib.sh([bins[b], "ratstep"] + idx_of[b], timeout=600, stdin=feed)
+                for l in out.split("\n"):
+                    m = re.match(r"RATCASE (\S+) (\S+) LEAF (\d+) IN(.*?) OUT (exc=\S+ vals=(\S*) ints=\S*)", l)
+                    if m and m.group(1) in nodes:
+                        nodes[m.group(1)]["done"] = (int(m.group(3)), [x for x in m.group(6).split(",") if x], m.group(5))
+                        progress = True
+                        continue
+                    m = re.match(r"NEED (\S+) (\d+) (\S+)(.*)$", l)
+                    if m and m.group(1) in nodes:
+                        nd, k = nodes[m.group(1)], int(m.group(2))
+                        if k not in nd["asked"] and m.group(3) in CALLEE_OWNER:
+                            nd["asked"].add(k)
+                            new_node(CALLEE_OWNER[m.group(3)], m.group(3), m.group(4).split(), parent=(m.group(1), k))
+                            progress = True
+                        continue
+                    m = re.match(r"RATERR (\S+) (.*)$", l)
+                    if m and m.group(1) in nodes:
+                        nodes[m.group(1)]["err"] = m.group(2)
+                        progress = True
+        # hand finished callees to their parents
+        for nid, nd in nodes.items():
+            if nd["parent"] and nd["done"] is not None:
+                pid, k = nd["parent"]
+                if k not in nodes[pid]["calls"]:
+                    nodes[pid]["calls"][k] = nd["done"][1]
+                    progress = True
+            if nd["parent"] and nd["err"] is not None and nodes[nd["parent"][0]]["err"] is None:
+                nodes[nd["parent"][0]]["err"] = "callee: " + nd["err"]
+        if not progress:
+            break
+    cases = [(nodes[n]["fn"], nodes[n]["ins"], nodes[n]["done"][2], nodes[n]["done"][0]) for n in order if nodes[n]["done"] is not None]
+    errs = {}
+    for n in order:
+        if nodes[n]["done"] is None:
+            errs.setdefault(nodes[n]["fn"], []).append(nodes[n]["err"] or "unresolved")
+    # the emitted Lean text on the same inputs (argument construction as in troute.lean_tv)
+    modules = sorted(set(meta[c[0]]["module"] for c in cases))
+    lines = ["import ImathVerif.Gen.%s" % m for m in modules] + ["open ImathVerif ImathVerif.Gen", troute.LEAN_TV_PRELUDE]
+    for i, (fn, ins, _, _) in enumerate(cases):
+        d = meta[fn]
+        args, pos = [], 0
+        for e in troute.EXTRA_ORDER:
+            if e in (d.get("extra") or "").split(","):
+                args.append({"tmin": "((1 : Rat) / 1024)", "tmax": "(1048576 : Rat)", "teps": "((1 : Rat) / 64)", "tlowest": "(-1048576 : Rat)",
+                             "atan2": "(st2 0)", "pow": "(st2 1)"}.get(e) or "(st1 %d)" % troute.STUB_INDEX[e])
+        for p in [x for x in (d.get("params") or "").split(",") if x]:
+            sh = p.partition(":")[2]
+            if sh == "-":
+                args.append(troute._rat(ins[pos])); pos += 1
+            else:
+                k = troute.ARITY[sh].count("%s")
+                args.append("(" + troute.ARITY[sh] % tuple(troute._rat(x) for x in ins[pos:pos + k]) + " : %s Rat)" % sh); pos += k
+        outs = [x for x in (d.get("outs") or "").split(",") if x]
+        vals, ints = [], []
+        for k, kind in enumerate(outs):
+            acc = "(v)" if len(outs) == 1 else "(v" + ".2" * k + (".1" if k < len(outs) - 1 else "") + ")"
+            if kind == "-": vals.append("[%s]" % acc)
+            elif kind == "B": ints.append('(if %s then "1," else "0,")' % acc)
+            elif kind == "I": ints.append('(toString %s ++ ",")' % acc)
+            else: vals.append("[" + ", ".join("%s.%s" % (acc, f) for f in troute.LEAVES[kind]) + "]")
+        body = '"exc=- vals=" ++ frs (%s) ++ " ints=" ++ %s' % (" ++ ".join(vals) if vals else "([] : List Rat)", " ++ ".join(ints) if ints else '""')
+        lines.append('#eval IO.println ("RATLEAN %d " ++ (let v := (%s %s); %s))' % (i, fn, " ".join(args), body))
+    got = {}
+    lout = ""
+    if cases:
+        lib.lake_build(["ImathVerif.Gen.%s" % m for m in modules])
+        rc, lout = lib.lean_run_file("\n".join(lines) + "\n", timeout=1800, name="c15calltv")
+        got = dict((int(m.group(1)), m.group(2).strip()) for m in re.finditer(r"RATLEAN (\d+) (.*)", lout))
+    bad = [(i, c) for i, c in enumerate(cases) if got.get(i) != c[2].strip()]
+    validated = sorted(set(c[0] for c in cases))
+    leaves = {}
+    for c in cases:
+        leaves.setdefault(c[0], set()).add(c[3])
+    missing = sorted(set(with_calls) - set(validated))
+    # every small tree is covered completely at Rat as well; the triangle tree on its reachable `true` and `false` leaves
+    thin = dict((fn, [len(leaves.get(fn, ())), int(meta[fn].get("paths", 0))]) for fn in validated
+                if int(meta[fn].get("paths", 0)) <= 4 and fn != "LineAlgo.rotatePoint" and len(leaves.get(fn, ())) < int(meta[fn].get("paths", 0)))
+    ok = bool(cases) and not bad and not missing and not thin
+    chk.oblige("lean-tv:c15:calls: emitted Lean text of the %d entries that CALL V*.length / Plane3.setPoints (skipped by the generic lean-tv) = "
+               "extracted tree composed with the callee's own tree, at exact fractions (%d cases, every leaf of the 2-path trees)" % (len(with_calls), len(cases)),
+               "translation-validation", ok, None if ok else {"mismatches": [b[1][0] for b in bad[:5]], "entries_not_validated": missing, "errors": errs, "leaves_short": thin})
+    chk.count(len(cases), len(cases))
+    chk.extra.setdefault("lean_tv", {})["c15_calls"] = {"entries_with_calls": len(with_calls), "entries_validated": len(validated), "cases": len(cases),
+                                                       "mismatches": len(bad), "unresolved": dict((k, len(v)) for k, v in errs.items()),
+                                                       "leaves_reached": dict((k, [len(v), int(meta[k].get("paths", 0))]) for k, v in sorted(leaves.items()))}
+    if missing or not cases or thin:
+        chk.fail("lean-tv:c15:calls", "lean-tv:c15:call-composition", "the composed validation did not cover every entry that calls an opaque function",
+                 {"not_validated": missing, "errors": errs, "leaves_short": thin, "lean_output_tail": lout[-600:]}, False)
+    for i, (fn, ins, exp, leaf) in bad[:10]:
+        chk.fail("lean-tv:c15:calls", "lean-tv:%s" % fn,
+                 "emitted Lean definition of %s evaluates differently from the extracted tree composed with its callee's tree (emitter bug, e.g. "
+                 "argument order or tuple projection of an opaque call)" % fn,
+                 {"function": fn, "inputs": ins, "tree_at_Frac": exp, "lean_at_Rat": got.get(i), "leaf": leaf,
+                  "lean_output_tail": lout[-600:] if got.get(i) is None else None}, True)
+    return ok
+
+
 def run(chk):
     chk.trusted = ["Lean 4.33 kernel; axioms propext/Classical.choice/Quot.sound at most", "Mathlib's ordered-field algebra (ring, field_simp, linarith)",
                    "translator harness/sym (T = Sym path extraction; Vec::length and Plane3::set(p1,p2,p3) modular), validated each run by TV "
@@ -259,9 +666,17 @@ def run(chk):
         index, changed = troute.regenerate(chk, bins["sym_c15"], "c15", idx_deps=[leaf_idx])
         troute.tv(chk, bins["sym_c15"], "c15", 400 if chk.thorough else 64, idx_deps=[leaf_idx])
         troute.lean_tv(chk, bins["sym_c15"], "c15", index, n=8 if chk.thorough else 3, idx_deps=[leaf_idx])
+        structured_tv(chk, bins["sym_c15"], [leaf_idx])
     if bins.get("sym_c15b") and bins.get("sym_c15"):
         index2, changed2 = troute.regenerate(chk, bins["sym_c15b"], "c15b", idx_deps=[leaf_idx, c15_idx])
         troute.tv(chk, bins["sym_c15b"], "c15b", 400 if chk.thorough else 64, idx_deps=[leaf_idx, c15_idx])
+        ph = (getattr(chk, "tv_paths", {}) or {}).get("c15b", {}).get("Plane3.mulM44")
+        if ph:
+            chk.oblige("tv:c15b:leaves: all %d paths of Plane3.mulM44 (the axis choice) are compared bitwise with the real code" % ph[1], "translation-validation", ph[0] == ph[1], ph)
+            if ph[0] != ph[1]:
+                chk.fail("tv:c15b:leaves", "tv:c15b:leaf-coverage", "the TV inputs do not reach every path of Plane3.mulM44", {"hit_of_paths": ph}, False)
+        if bins.get("sym_leaf"):
+            composed_lean_tv(chk, bins, index, index2, leaf_idx, c15_idx)
         index = index + index2
     for d in index[:6]:
         chk.sample({"entry": d["name"], "paths": d.get("paths")})
@@ -293,7 +708,9 @@ def run(chk):
                         "failing_cases_of_this_function": len(res["fails"][fn])}
         return None
 
-    built, _ = chk.check_theorems(PROPS, search=search)
+    built, _ = chk.check_theorems(PROPS, required=REQUIRED, search=search)
+    if bins.get("sym_c15"):
+        property_text_obligations(chk, bins["sym_c15"], [leaf_idx])
 
     # residue obligations: one per function of the harness
     ok_run = res.get("ran", False)
@@ -311,6 +728,10 @@ def run(chk):
             for b in bad:
                 if fn == "LineAlgo.closestPoints" and b["class"].startswith("exactly-parallel-reported-true"):
                     key = PARALLEL_KEY
+                elif fn == "Line3.distanceToLine" and b["class"] == "parallel-directions-differ-by-rounding":
+                    key = DIFFER_KEY
+                elif b["class"].startswith("overflow-guard") or b["class"].startswith("projective"):
+                    key = "residue:%s:%s" % (fn, b["class"])
                 elif fn in FUNC_THEOREM:
                     key = "theorem:" + FUNC_THEOREM[fn]
                 else:
@@ -322,12 +743,42 @@ def run(chk):
                 if key == PARALLEL_KEY:
                     rep.update(parallel_repro(bins.get("sym_c15"), [leaf_idx]))
                     rep["classes"] = sorted(set(b["class"] for b in bs))
+                if key == DIFFER_KEY:
+                    rep.update(differ_repro(bins.get("sym_c15"), [leaf_idx]))
+                    rep["counts"] = dict((k, v) for k, v in res["counts"].items() if "differ" in k)
                 if key == "theorem:Line3_distanceToLine" and bins.get("sym_c15"):
                     w = distance_witness(chk, bins["sym_c15"], [leaf_idx])
                     if w:
                         rep.update(w)
                 chk.fail("residue:" + fn, key, "real code disagrees with the exact answer on a lattice configuration: %s (%s, %s) %s"
                          % (fn, bs[0]["class"], bs[0]["element_type"], bs[0]["detail"]), rep, True)
+        # the open known finding cannot hide a regression: the share of bitwise-parallel pairs reported `true` stays in its band
+        cnt = res["counts"]
+        for ty in ("double", "float"):
+            tot = cnt.get("parallel_as_represented:" + ty, 0)
+            tr = cnt.get("parallel_as_represented_reported_true:%s:closest" % ty, 0) + cnt.get("parallel_as_represented_reported_true:%s:not-closest" % ty, 0)
+            share = tr / tot if tot else None
+            okr = tot >= 30 and share is not None and share <= PARALLEL_TRUE_SHARE_MAX
+            chk.oblige("residue:closestPoints:%s: bitwise-parallel pairs reported `true`: %d of %d, share <= %.2f (the open finding must not hide a regression)"
+                       % (ty, tr, tot, PARALLEL_TRUE_SHARE_MAX), "residue", okr, None if okr else {"reported_true": tr, "parallel_as_represented": tot})
+            if not okr:
+                chk.fail("residue:closestPoints:%s" % ty, "residue:LineAlgo.closestPoints:parallel-true-share:%s" % ty,
+                         "the share of bitwise-parallel line pairs for which closestPoints returns true left the band of the recorded finding "
+                         "(%s of %s; bound %.2f): a regression of the guard hidden behind the known finding, or too few parallel pairs generated"
+                         % (tr, tot, PARALLEL_TRUE_SHARE_MAX), {"reported_true": tr, "parallel_as_represented": tot, "element_type": ty}, False)
+        # reach of the new classes (hit counts)
+        reach = {"overflow guard of closestPoints fired / not fired (exact predicate on the stored values)":
+                     [cnt.get("guard_closestPoints:%s:%s" % (ty, w), 0) for ty in ("double", "float") for w in ("fired", "not-fired")],
+                 "overflow guard of closestPointTo(line) fired / not fired":
+                     [cnt.get("guard_closestPointToLine:%s:%s" % (ty, w), 0) for ty in ("double", "float") for w in ("fired", "not-fired")],
+                 "overflow guard of triangle intersect fired": [cnt.get("guard_triangle:%s:fired" % ty, 0) for ty in ("double", "float")],
+                 "plane * projective matrix (last column (a,b,c,16)/16)": [cnt.get("proj_cases:%s" % ty, 0) for ty in ("double", "float")]}
+        floor = 100 if not chk.thorough else 400
+        for what, v in reach.items():
+            okv = min(v) >= floor
+            chk.oblige("residue:reach: %s: %s cases (>= %d each)" % (what, "/".join(str(x) for x in v), floor), "residue", okv, None if okv else v)
+            if not okv:
+                chk.fail("residue:reach", "residue:reach:" + what.split(" (")[0].replace(" ", "-")[:60], "a structured class of the residue harness is (almost) never generated", {"counts": v}, False)
         chk.residues["C15"] = {"evaluations": res["evals"],
                                "worst_error_in_units_of_eps_times_scale_times_conditioning": res["maxima"],
                                "bounds": "4 (unit vectors), 16-64 (points, distances, parameters); conditioning 1/sin^2 for line pairs, 1/|cos| for "
